@@ -492,6 +492,13 @@ func (x *Exec) goEq(t types.Type, a, b string) string {
 
 func (c *SpecCtx) field(v Val, name string, e SExpr) Val {
 	x := c.x
+	if v.Tup != nil {
+		i, err := strconv.Atoi(name)
+		if err != nil || i < 0 || i >= len(v.Tup) {
+			sfail("bad tuple component %s in %s", name, e.String())
+		}
+		return v.Tup[i]
+	}
 	if v.T == nil {
 		sfail("field %s of untyped value in %s", name, e.String())
 	}
@@ -553,8 +560,53 @@ func (c *SpecCtx) index(v Val, i string, e SExpr) Val {
 	return Val{}
 }
 
+func (c *SpecCtx) methodCall(e *SCall) Val {
+	x := c.x
+	recv := c.Eval(e.Args[0])
+	if recv.T == nil {
+		sfail("method %s on untyped value", e.Fn)
+	}
+	var fn *ssa.Function
+	for _, t := range []types.Type{recv.T, types.NewPointer(recv.T)} {
+		ms := x.prog.MethodSets.MethodSet(t)
+		for i := 0; i < ms.Len(); i++ {
+			if ms.At(i).Obj().Name() == e.Fn {
+				fn = x.prog.MethodValue(ms.At(i))
+			}
+		}
+		if fn != nil {
+			break
+		}
+	}
+	if fn == nil {
+		sfail("no method %s on %s", e.Fn, recv.T)
+	}
+	if _, isPtr := fn.Signature.Recv().Type().Underlying().(*types.Pointer); isPtr {
+		if _, vIsPtr := recv.T.Underlying().(*types.Pointer); !vIsPtr {
+			sfail("method %s needs a pointer receiver", e.Fn)
+		}
+	}
+	args := []Val{recv}
+	for i := 1; i < len(e.Args); i++ {
+		a := c.Eval(e.Args[i])
+		if a.T == nil && i < len(fn.Params) {
+			pt := fn.Params[i].Type()
+			if isFloat(pt) {
+				a = c.toFloat(a, e.Args[i])
+			}
+			a.T = pt
+			a.Bltn = ""
+		}
+		args = append(args, a)
+	}
+	return x.specCallGo(c, fn, args)
+}
+
 func (c *SpecCtx) call(e *SCall) Val {
 	x := c.x
+	if e.Method {
+		return c.methodCall(e)
+	}
 	arg := func(i int) Val {
 		if i >= len(e.Args) {
 			sfail("%s: missing argument %d", e.Fn, i)
